@@ -544,3 +544,18 @@ SPECS["C06"]["queries"] += [P_FINI]
 SPECS["C11"]["queries"] += [P_FINI]
 SPECS["C01"]["queries"] += [P_INIT]
 SPECS["C13"]["queries"] += [P_INIT]   # the first checkpoint exists: base case of "a checkpoint not after the frontier is kept"
+
+
+def c09h(name, w, fa, ca, ta, fb, cb, tb, tier="quick"):
+    return Q(name, "c09_hosting.c", tier=tier, defs={"W": w, "FA": fa, "CA": ca, "TA": ta, "FB": fb, "CB": cb, "TB": tb, "MAXLP": 3}, unwind=40, solver="z3", native=False, timeout=900,
+             bounds="real lp_init: LP %d hosted by (rank range starting at %d with %d LPs, %d threads) and by (start %d, %d LPs, %d threads); all 2^64 seeds; arbitrary rank id / checkpoint interval / GVT period" % (w, fa, ca, ta, fb, cb, tb))
+
+
+SPECS["C09"]["queries"] += [c09h("hosting_w2_a", 2, 2, 1, 1, 0, 3, 2), c09h("hosting_w3_b", 3, 1, 3, 1, 3, 2, 2), c09h("hosting_w1_c", 1, 0, 2, 2, 1, 1, 1, tier="thorough")]
+SPECS["C09"]["encodes"] += ["lp/lp.c:lp_init (generator allocation and seeding)"]
+SPECS["C17"]["queries"] += [c17("t1_u5", 1, 5, "quick")]
+
+P_ORDER_EXACT = Q("order_p36_exact_alloc", "c16_order.c", defs={"PLMAX": 36, "EXACT_ALLOC": None}, unwind=38, timeout=900,
+                  bounds="as order_p36, with every message allocated with exactly the room msg_allocator_alloc() gives its payload size: the comparison never reads outside a message buffer")
+SPECS["C16"]["queries"] += [P_ORDER_EXACT]
+SPECS["C11"]["queries"] += [P_ORDER_EXACT]
